@@ -208,9 +208,13 @@ def replay(rs):
     spec = rs["spec"]
     worst = 0.0
     detail = {}
-    for numba in (False, True):
-        net, _ = nets.build(spec, nets.concrete_valuer(rs.get("values", {})))
-        ok, err = concrete_pipeflow(net, use_numba=numba, mode="hydraulics")
+    # the solver's values first, nominal inputs as a second attempt (the obligation is claimed for all values)
+    for numba, values in ((False, rs.get("values", {})), (True, rs.get("values", {})), (False, {}), (True, {})):
+        if not values and worst > 1e-7:
+            break
+        net, _ = nets.build(spec, nets.concrete_valuer(values))
+        ok, err = concrete_pipeflow(net, use_numba=numba, mode="hydraulics", max_iter_hyd=100)
+        numba = "%s/%s" % (numba, "model" if values else "nominal")
         if not ok:
             detail["numba=%s" % numba] = "pipeflow failed: %s" % err
             continue
